@@ -44,6 +44,9 @@ pub struct Env {
     /// instead of /dev/null. It must not matter.
     #[serde(default)]
     pub stdin_noise: bool,
+    /// Pause once, half-way through delivering stdin, for this many milliseconds (a slow producer upstream).
+    #[serde(default)]
+    pub stdin_pause_ms: Option<u64>,
     /// Deliver stdin in chunks of this size (only for commands that read stdin).
     pub stdin_chunk: usize,
 }
@@ -72,6 +75,7 @@ impl Env {
             dirty_out: false,
             crash_first_us: None,
             stdin_noise: false,
+            stdin_pause_ms: None,
             stdin_chunk: 1 << 20,
         }
     }
@@ -117,6 +121,7 @@ impl Env {
             other_cwd: rng.pct(30),
             dirty_out: rng.pct(35),
             stdin_noise: rng.pct(30),
+            stdin_pause_ms: if rng.pct(12) { Some(350 + rng.below(400)) } else { None },
             crash_first_us: if rng.pct(25) { Some(*rng.pick(&[0u64, 300, 1000, 2500, 6000, 15000])) } else { None },
             stdin_chunk: *rng.pick(&[1usize, 3, 64, 4096, 1 << 20]),
         }
@@ -145,6 +150,7 @@ impl Env {
             "dirty_out" => e.dirty_out = false,
             "crash_first" => e.crash_first_us = None,
             "stdin_noise" => e.stdin_noise = false,
+            "stdin_pause" => e.stdin_pause_ms = None,
             "locale" => {
                 e.locale = None;
                 e.tz = None;
@@ -161,7 +167,7 @@ impl Env {
         e
     }
 
-    pub const DIMS: &'static [&'static str] = &["hash_seed", "dir_order", "cpus", "clock", "heap_pad", "aslr", "stack_pad", "locale", "extra_vars", "cwd", "dirty_out", "crash_first", "stdin_noise", "stdin_chunk"];
+    pub const DIMS: &'static [&'static str] = &["hash_seed", "dir_order", "cpus", "clock", "heap_pad", "aslr", "stack_pad", "locale", "extra_vars", "cwd", "dirty_out", "crash_first", "stdin_noise", "stdin_pause", "stdin_chunk"];
 }
 
 #[derive(Clone, Debug, PartialEq, Eq)]
@@ -330,7 +336,17 @@ fn run_built(cmd: &mut Command, stdin: Option<&[u8]>, env: &Env, timeout_s: u64)
     if let Some(data) = stdin {
         let mut w = child.stdin.take().unwrap();
         let chunk = env.stdin_chunk.max(1);
+        let mut sent = 0usize;
+        let mut paused = false;
         for piece in data.chunks(chunk) {
+            if let (Some(ms), false) = (env.stdin_pause_ms, paused) {
+                if sent >= data.len() / 2 {
+                    let _ = w.flush();
+                    std::thread::sleep(std::time::Duration::from_millis(ms));
+                    paused = true;
+                }
+            }
+            sent += piece.len();
             if w.write_all(piece).is_err() {
                 break;
             }
